@@ -25,7 +25,9 @@ from checks import c06
 
 THEOREMS = ["Yardl.C05.conversion_total", "Yardl.C05.unchanged_types_convert_exactly", "Yardl.C05.integer_conversion_checks_range", "Yardl.C05.every_integer_has_a_range", "Yardl.C05.added_field_conversions", "Yardl.C05.added_field_round_trip",
             "Yardl.C05.integer_widening_round_trip", "Yardl.C05.record_fields_convert_by_name",
-            "Yardl.C05.integer_narrowing_overflows"]
+            "Yardl.C05.integer_narrowing_overflows", "Yardl.C05.made_optional_or_mandatory", "Yardl.C05.optional_round_trip",
+            "Yardl.C05.joined_or_left_a_union", "Yardl.C05.union_round_trip", "Yardl.C05.optional_and_union_with_null",
+            "Yardl.C05.vectors_convert_element_by_element"]
 
 
 def run(report, tier, seed):
